@@ -761,10 +761,6 @@ package forwarder
 //@     assume [A-NLOPEN] ret1 == nil ==> ret0 != nil
 //@   after call gtp5gnl.NewClient#2:
 //@     assume [A-NLOPEN] ret1 == nil ==> ret0 != nil
-//@   after call OpenServer#1:
-//@     assume [A-NLOPEN] ret1 == nil ==> ret0 != nil
-//@   after call OpenServer#2:
-//@     assume [A-NLOPEN] ret1 == nil ==> ret0 != nil
 
 // ---------------------------------------------------------------------------------------------
 // Usage reports read back from gtp5g (C10): each report is converted field by field - URR id, query reference,
